@@ -98,7 +98,12 @@ const PRIMS: &[&str] = &[
     "apply", "call/cc", "call-with-current-continuation", "eval", "force", "error", "display", "write", "symbol?",
     "procedure?", "vector?", "string?", "boolean?", "number?", "integer?", "char?", "list?", "zero?", "string-length",
     "cadr", "cddr", "caar", "cdar", "abs", "min", "max", "even?", "odd?", "positive?", "negative?", "quotient",
-    "remainder", "modulo", "%inject", "%any-null?", "%cars", "%cdrs", "%list*", "%vector", "newline", "add1", "sub1",
+    "remainder", "modulo", "%inject", "string-ref", "string-set!", "substring", "string-copy", "string-fill!", "string->list",
+    "string->vector", "vector->string", "list->string", "string", "make-string", "string-append", "string=?", "string<?",
+    "string>?", "string<=?", "string>=?", "string-ci=?", "string-ci<?", "string-ci>?", "string-ci<=?", "string-ci>=?",
+    "string-upcase", "string-downcase", "string-foldcase", "char->integer", "integer->char", "char-upcase", "char-downcase",
+    "char-foldcase", "char=?", "char<?", "char>?", "char<=?", "char>=?", "char-ci=?", "char-ci<?", "char-ci>?", "char-ci<=?",
+    "char-ci>=?", "char-alphabetic?", "char-numeric?", "char-whitespace?", "char-upper-case?", "char-lower-case?", "%any-null?", "%cars", "%cdrs", "%list*", "%vector", "newline", "add1", "sub1",
 ];
 
 const MODEL_PRELUDE: &str = "
@@ -668,6 +673,38 @@ impl Machine {
         }
     }
 
+    fn string(v: &V) -> Result<Rc<StrObj>, Abort> {
+        match v {
+            V::Str(s) => Ok(s.clone()),
+            V::Unspec | V::Unassigned => Err(Abort::Unspecified("string operation on an unspecified value")),
+            _ => Err(type_err()),
+        }
+    }
+
+    fn chr(v: &V) -> Result<char, Abort> {
+        match v {
+            V::Char(c) => Ok(*c),
+            V::Unspec | V::Unassigned => Err(Abort::Unspecified("character operation on an unspecified value")),
+            _ => Err(type_err()),
+        }
+    }
+
+    /// optional [start [end]] arguments of the string procedures: 0 <= start <= end <= len
+    fn range(opt: &[V], len: usize) -> Result<(usize, usize), Abort> {
+        let start = match opt.first() {
+            Some(s) => Self::index(s)?,
+            None => 0,
+        };
+        let end = match opt.get(1) {
+            Some(e) => Self::index(e)?,
+            None => len,
+        };
+        if start > end || end > len {
+            return Err(Abort::Error("index", None));
+        }
+        Ok((start, end))
+    }
+
     fn arity(args: &[V], min: usize, max: Option<usize>) -> Result<(), Abort> {
         if args.len() < min || max.map(|m| args.len() > m).unwrap_or(false) {
             Err(Abort::Error("arity", None))
@@ -1078,6 +1115,232 @@ impl Machine {
                     _ => return Err(type_err()),
                 }
             }
+            "string-ref" => {
+                Self::arity(&args, 2, Some(2))?;
+                let s = Self::string(&args[0])?;
+                let i = Self::index(&args[1])?;
+                let c = s.s.borrow().get(i).cloned().ok_or(Abort::Error("index", None))?;
+                V::Char(c)
+            }
+            "string-set!" => {
+                Self::arity(&args, 3, Some(3))?;
+                let s = Self::string(&args[0])?;
+                let i = Self::index(&args[1])?;
+                let c = Self::chr(&args[2])?;
+                if i >= s.s.borrow().len() {
+                    return Err(Abort::Error("index", None));
+                }
+                if s.constant {
+                    return Err(Abort::Unspecified("mutation of a literal constant"));
+                }
+                s.s.borrow_mut()[i] = c;
+                V::Unspec
+            }
+            "substring" | "string-copy" | "string->list" => {
+                if name == "substring" {
+                    Self::arity(&args, 3, Some(3))?;
+                } else {
+                    Self::arity(&args, 1, Some(3))?;
+                }
+                let s = Self::string(&args[0])?;
+                let chars = s.s.borrow();
+                let (start, end) = Self::range(&args[1..], chars.len())?;
+                let part: Vec<char> = chars[start..end].to_vec();
+                if name == "string->list" {
+                    V::list(part.into_iter().map(V::Char).collect())
+                } else {
+                    V::Str(Rc::new(StrObj {
+                        s: RefCell::new(part),
+                        constant: false,
+                    }))
+                }
+            }
+            "string-fill!" => {
+                Self::arity(&args, 2, Some(4))?;
+                let s = Self::string(&args[0])?;
+                let c = Self::chr(&args[1])?;
+                let len = s.s.borrow().len();
+                let (start, end) = Self::range(&args[2..], len)?;
+                if s.constant && end > start {
+                    return Err(Abort::Unspecified("mutation of a literal constant"));
+                }
+                for slot in s.s.borrow_mut()[start..end].iter_mut() {
+                    *slot = c;
+                }
+                V::Unspec
+            }
+            "string->vector" => {
+                Self::arity(&args, 1, Some(1))?;
+                let s = Self::string(&args[0])?;
+                let items = s.s.borrow().iter().map(|c| V::Char(*c)).collect();
+                V::vector(items, false)
+            }
+            "vector->string" => {
+                Self::arity(&args, 1, Some(1))?;
+                match &args[0] {
+                    V::Vector(v) => {
+                        let mut out = vec![];
+                        for it in v.items.borrow().iter() {
+                            out.push(Self::chr(it)?);
+                        }
+                        V::Str(Rc::new(StrObj {
+                            s: RefCell::new(out),
+                            constant: false,
+                        }))
+                    }
+                    _ => return Err(type_err()),
+                }
+            }
+            "list->string" => {
+                Self::arity(&args, 1, Some(1))?;
+                let items = args[0].list_to_vec().ok_or(Abort::Unspecified("list->string of an improper list"))?;
+                let mut out = vec![];
+                for it in &items {
+                    out.push(Self::chr(it)?);
+                }
+                V::Str(Rc::new(StrObj {
+                    s: RefCell::new(out),
+                    constant: false,
+                }))
+            }
+            "string" => {
+                let mut out = vec![];
+                for it in &args {
+                    out.push(Self::chr(it)?);
+                }
+                V::Str(Rc::new(StrObj {
+                    s: RefCell::new(out),
+                    constant: false,
+                }))
+            }
+            "make-string" => {
+                Self::arity(&args, 1, Some(2))?;
+                let n = Self::index(&args[0])?;
+                if n > 1_000_000 {
+                    return Err(Abort::Unspecified("huge allocation"));
+                }
+                match args.get(1) {
+                    Some(c) => {
+                        let c = Self::chr(c)?;
+                        V::Str(Rc::new(StrObj {
+                            s: RefCell::new(vec![c; n]),
+                            constant: false,
+                        }))
+                    }
+                    None => return Err(Abort::Unspecified("make-string without a fill character")),
+                }
+            }
+            "string-append" => {
+                let mut out = vec![];
+                for it in &args {
+                    out.extend(Self::string(it)?.s.borrow().iter().cloned());
+                }
+                V::Str(Rc::new(StrObj {
+                    s: RefCell::new(out),
+                    constant: false,
+                }))
+            }
+            "string=?" | "string<?" | "string>?" | "string<=?" | "string>=?" | "string-ci=?" | "string-ci<?" | "string-ci>?"
+            | "string-ci<=?" | "string-ci>=?" => {
+                Self::arity(&args, 2, None)?;
+                let ci = name.contains("-ci");
+                let mut strs: Vec<Vec<char>> = vec![];
+                for a in &args {
+                    let s = Self::string(a)?;
+                    let chars: Vec<char> = s.s.borrow().clone();
+                    strs.push(if ci { chars.into_iter().map(fold_char).collect() } else { chars });
+                }
+                let op = name.trim_start_matches("string-ci").trim_start_matches("string");
+                let mut ok = true;
+                for w in strs.windows(2) {
+                    ok = ok
+                        && match op {
+                            "=?" => w[0] == w[1],
+                            "<?" => w[0] < w[1],
+                            ">?" => w[0] > w[1],
+                            "<=?" => w[0] <= w[1],
+                            _ => w[0] >= w[1],
+                        };
+                }
+                V::Bool(ok)
+            }
+            "char=?" | "char<?" | "char>?" | "char<=?" | "char>=?" | "char-ci=?" | "char-ci<?" | "char-ci>?" | "char-ci<=?"
+            | "char-ci>=?" => {
+                Self::arity(&args, 2, None)?;
+                let ci = name.contains("-ci");
+                let mut cs = vec![];
+                for a in &args {
+                    let c = Self::chr(a)?;
+                    cs.push(if ci { fold_char(c) } else { c });
+                }
+                let op = name.trim_start_matches("char-ci").trim_start_matches("char");
+                let mut ok = true;
+                for w in cs.windows(2) {
+                    ok = ok
+                        && match op {
+                            "=?" => w[0] == w[1],
+                            "<?" => w[0] < w[1],
+                            ">?" => w[0] > w[1],
+                            "<=?" => w[0] <= w[1],
+                            _ => w[0] >= w[1],
+                        };
+                }
+                V::Bool(ok)
+            }
+            "string-upcase" | "string-downcase" | "string-foldcase" => {
+                Self::arity(&args, 1, Some(1))?;
+                let s = Self::string(&args[0])?;
+                let text: String = s.s.borrow().iter().collect();
+                let out: Vec<char> = match name {
+                    "string-upcase" => text.to_uppercase().chars().collect(),
+                    "string-downcase" => text.to_lowercase().chars().collect(),
+                    _ => text.chars().map(fold_char).collect(),
+                };
+                V::Str(Rc::new(StrObj {
+                    s: RefCell::new(out),
+                    constant: false,
+                }))
+            }
+            "char->integer" => {
+                Self::arity(&args, 1, Some(1))?;
+                V::Int(Self::chr(&args[0])? as u32 as i128)
+            }
+            "integer->char" => {
+                Self::arity(&args, 1, Some(1))?;
+                let i = Self::int(&args[0])?;
+                if !(0..=0x10FFFF).contains(&i) {
+                    return Err(Abort::Error("scalar", None));
+                }
+                match char::from_u32(i as u32) {
+                    Some(c) => V::Char(c),
+                    None => return Err(Abort::Error("scalar", None)),
+                }
+            }
+            "char-upcase" | "char-downcase" | "char-foldcase" => {
+                Self::arity(&args, 1, Some(1))?;
+                let c = Self::chr(&args[0])?;
+                V::Char(match name {
+                    "char-upcase" => {
+                        let mut it = c.to_uppercase();
+                        match (it.next(), it.next()) {
+                            (Some(u), None) => u,
+                            _ => c,
+                        }
+                    }
+                    _ => fold_char(c),
+                })
+            }
+            "char-alphabetic?" | "char-numeric?" | "char-whitespace?" | "char-upper-case?" | "char-lower-case?" => {
+                Self::arity(&args, 1, Some(1))?;
+                let c = Self::chr(&args[0])?;
+                V::Bool(match name {
+                    "char-alphabetic?" => c.is_alphabetic(),
+                    "char-numeric?" => c.is_numeric(),
+                    "char-whitespace?" => c.is_whitespace(),
+                    "char-upper-case?" => c.is_uppercase(),
+                    _ => c.is_lowercase(),
+                })
+            }
             "string-length" => {
                 Self::arity(&args, 1, Some(1))?;
                 match &args[0] {
@@ -1145,6 +1408,16 @@ impl Machine {
 impl Default for Machine {
     fn default() -> Self {
         Machine::new()
+    }
+}
+
+/// simple case folding for the generator's palette (where lower-casing a single character and
+/// Unicode simple case folding coincide)
+pub fn fold_char(c: char) -> char {
+    let mut it = c.to_lowercase();
+    match (it.next(), it.next()) {
+        (Some(l), None) => l,
+        _ => c,
     }
 }
 
